@@ -5,19 +5,39 @@ import (
 	"fmt"
 	"os"
 	"testing"
+	"time"
 
+	"github.com/nuts-foundation/nuts-node/http/user"
+	"github.com/nuts-foundation/nuts-node/storage"
+	"github.com/nuts-foundation/nuts-node/vcr/pe"
 	"verif/lib/iamflow"
+	"verif/lib/node"
 )
 
 func TestDbg(t *testing.T) {
 	data, _ := os.ReadFile("/repo/e2e-tests/browser/openid4vp_employeecredential/config/policy/zorgtoepassing.json")
 	var pol map[string]any
 	json.Unmarshal(data, &pol)
-	w := iamflow.NewWorld(t, iamflow.Options{Policy: map[string]any{"test": map[string]any{"organization": iamflow.OrgPD()}, "usertest": pol["zorgtoepassing"]}})
+	w := iamflow.NewWorld(t, iamflow.Options{Verbosity: "debug", Policy: map[string]any{"test": map[string]any{"organization": iamflow.OrgPD()}, "usertest": pol["zorgtoepassing"]}})
 	w.Scope = "usertest"
-	_, sid, b, err := w.RunUserFlow("u1", nil)
-	fmt.Println(err)
-	h := b.Hops[len(b.Hops)-1]
-	fmt.Println(h.Status, h.URL, len(h.Body))
-	fmt.Println(w.UserToken(sid))
+	_, _, b, err := w.RunUserFlow("u1", nil)
+	fmt.Println(err, b.Cookies)
+	store := node.Engine[storage.Engine](w.N).GetSessionDatabase().GetStore(time.Hour, "user", "session")
+	for _, v := range b.Cookies {
+		var s user.Session
+		fmt.Println(store.Get(v, &s))
+		fmt.Println(len(s.Wallet.Credentials))
+		for _, c := range s.Wallet.Credentials {
+			j, _ := json.Marshal(c)
+			fmt.Println(string(j))
+			jj, _ := c.MarshalJSON()
+			_ = jj
+			fmt.Printf("%+v\n", c.CredentialSubject)
+		}
+		pdj, _ := json.Marshal(pol["zorgtoepassing"].(map[string]any)["user"])
+		pd, err := pe.ParsePresentationDefinition(pdj)
+		fmt.Println(err)
+		vcs, ms, err := pd.Match(s.Wallet.Credentials)
+		fmt.Println(len(vcs), ms, err)
+	}
 }
